@@ -7,6 +7,14 @@ ROOT = os.path.dirname(os.path.dirname(os.path.abspath(__file__)))
 TECH = "explicit TLA+ specification model-checked with TLC; TLC-generated behaviours replayed into the real library; recorded trace validated by TLC against the specification"
 
 CHECKS = {
+    "C01": dict(
+        text="Router.tla gives the meaning of every trigger on concrete atoms (Sat = conjunction of scheme / host / ip / method / header / date-time-weekday / path predicates + the any-host policy scoped per scheme) and a code-shaped bucket-path index; TLC checks index = Sat for every rule set of the bound (<=2 rules of a ~70-rule pool of single-trigger variants with boundary atoms and multi-layer combinations x 16 configurations in the thorough tier; a covering sub-pool x 4 configurations in the quick tier; <=3 rules on the sub-pool) and every witness-centred probe request. Every set is replayed on a real Router<Rule> built from Rule JSON and every probe's id bag is judged by TLC against Sat (missing / spurious / duplicate).",
+        note="Bounded to the atoms of Router.tla (3 schemes, 7 hosts incl. case variants and a dynamic host, 7 addresses around two nested CIDRs + IPv6, 4 methods, 14 header lists, 9 instants, 7 paths) and to <=3 rules. Query-string normalisation is C09's business (paths here carry no query). Three genuine defects found here were repaired (duplicate through overlapping ip ranges, header regex under ignore_header_case; see known_findings.json).",
+        ref="DESIGN.md section 6, C01"),
+    "C02": dict(
+        text="RouterMachine.tla: insert / remove / batch_remove / apply_change_set / clone-then-change-set (update_existing_router) / cache on two router handles. TLC explores all histories up to the bound (every operation kind into every reachable abstract state) with IncrementalEqualsRebuild, UniqueIds and clone Isolation, plus seeded random long histories (-simulate). Each history is replayed on real routers; after every operation every live handle is probed and compared by TLC with Sat over the model's live set, with a router rebuilt from scratch (real vs real), len, get_route_by_id and remove's return value.",
+        note="Bounded: pool of 5 (quick) / 8 (thorough) rules incl. two versions per id and host/path patterns that force tree splits and collapses, <=3/4 operations exhaustively, 10-operation random histories. One genuine defect repaired (remove returned None for dynamic-host rules).",
+        ref="DESIGN.md section 6, C02"),
     "C05": dict(
         text="TLC checks Action.tla exhaustively over rule pools (<=2 rules x status/conditions/exclusion/log/reset/stop, filters/target/sampling x override; <=3 rules on a reduced pool in the thorough tier): the code-shaped fold, merge and queries imply the declarative window semantics in every state. Every enumerated behaviour (rule set x override x query script) is replayed through real Rule JSON -> Router -> Action::from_routes_rule -> get_status_code / filter_headers / create_filter_body / should_log_request and the recorded answers and applied-rule sets are judged by TLC against the declarative layer.",
         note="Bounded to the pools and scripts of MC_Action.tla; response codes 0/200/404/500; applied-rule lists compared as sets; sampling only at rates none/0/100 (as the property states). Trusted: TLC, serde_json recorder.",
@@ -27,6 +35,10 @@ CHECKS = {
         text="RadixTree.tla has cache(limit, level) as an action that only sets compiled flags under the level-by-level budget algorithm; TLC interleaves it with all updates (limits 0-3, levels 0-2 and none) and checks CacheTransparent/CacheBudget. On the real code a twin tree that is never cached receives the same history; TLC compares find / len / remove results of the two after every operation (real vs real) and, as drift, compiled flags and the returned budget with the model.",
         note="Tree level (RegexTreeMap) in this check; router-level cache (Router::cache, Route::compile, captures, traces) is covered by the router traces. Bounded as C08.",
         ref="DESIGN.md section 6, C12"),
+    "C17": dict(
+        text="For every (router state, probe request) of the C01 and C02 universes (so also after removals, change-sets and cache warm-ups) the harness records the ids found in trace_request's tree, the priority of get_trace's final route and of get_route; TLC checks set(trace routes) = set(match) — the match itself being judged against Sat — and equal priorities.",
+        note="The per-step action trace (TraceAction) part of the property is exercised through the analysis checks (explain) — see C19. Bounded as C01/C02.",
+        ref="DESIGN.md section 6, C17"),
     "C13": dict(
         text="TLC checks HeaderMachine.tla exhaustively (code-shaped operations imply the declarative ones for every header list <= MaxH and filter sequence <= MaxF over 3 names incl. a case variant, empty values, 5 operations + unknown); every enumerated behaviour is replayed into the real FilterHeaderAction and Action::filter_headers and the recorded trace is validated by TLC against the declarative layer.",
         note="Bounded: names {x-a, X-A, x-b}, lists <= 2 (quick) / <= 3 (thorough), sequences <= 2 / <= 3. Trusted: TLC, the ndjson recorder, the Lower table for the three names.",
